@@ -105,7 +105,7 @@ func (rw *rwalker) expr(e ast.Expr) []*rev {
 					if it, ok := rw.term(x.Index); ok && it.k == "Const" && it.z.Sign() >= 0 && it.z.Cmp(ct.z) < 0 {
 						return evs // constant index into a fixed-size array: checked by the compiler
 					}
-					evs = append(evs, &rev{k: "SetLen", x: name, t1: ct})
+					evs = append(evs, &rev{k: "SetLen", x: name, t1: ct, aux: true})
 				}
 			}
 		}
@@ -119,7 +119,7 @@ func (rw *rwalker) expr(e ast.Expr) []*rev {
 		if t := rw.typeOf(x.X); t.ok() {
 			if n, ok := rw.w.arrayLen(t); ok {
 				if ct, ok := constTerm(n); ok {
-					evs = append(evs, &rev{k: "SetLen", x: name, t1: ct})
+					evs = append(evs, &rev{k: "SetLen", x: name, t1: ct, aux: true})
 				}
 			}
 		}
@@ -322,7 +322,7 @@ func (rw *rwalker) arrayLenEv(a ast.Expr) []*rev {
 	if t := rw.typeOf(a); t.ok() {
 		if n, ok := rw.w.arrayLen(t); ok {
 			if ct, ok := constTerm(n); ok {
-				return []*rev{{k: "SetLen", x: rw.nameOf(a), t1: ct}}
+				return []*rev{{k: "SetLen", x: rw.nameOf(a), t1: ct, aux: true}}
 			}
 		}
 	}
